@@ -174,8 +174,10 @@ func Load(repo string, overlay map[string][]byte) (*Prog, error) {
 		}
 	}
 	sort.Slice(p.AllFuncs, func(i, j int) bool { return p.AllFuncs[i].String() < p.AllFuncs[j].String() })
+	computeTypeRenames(p)
 	computeRenames(p)
 	computeFieldRenames(p)
+	computeDevirt(p)
 	p.LoadSecs = time.Since(t0).Seconds()
 	return p, nil
 }
